@@ -3,6 +3,7 @@ import AquaVerif.Drv.RainPartition
 import AquaVerif.Drv.RootZone
 import AquaVerif.Drv.WaterStress
 import AquaVerif.Drv.Drainage
+import AquaVerif.Drv.SoilBuild
 import AquaVerif.Drv.SoilEvaporation
 import AquaVerif.Drv.Calendar
 import AquaVerif.Drv.Clock
@@ -35,6 +36,9 @@ def handlers : List (String × Handler) := [
   ("pre_irrigation", hPreIrrigation),
   ("soil_evaporation", hSoilEvaporation),
   ("evap_layer_water_content", hEvapLayer),
+  ("soil_profile", hSoilProfile),
+  ("init_wc", hInitWC),
+  ("gw_series", hGwSeries),
   ("clock", hClock),
   ("clock_calls", hClockCalls),
   ("calendar", hCalendar),
